@@ -417,6 +417,43 @@ func ruleS3(p *Prog, r *Report) {
 					}
 				}
 				r.Ok(R, cons, p.InstrPos(in), fmt.Sprintf("preceded on all paths by %d register write(s) of the same id, on their err == nil edge", len(hits)))
+				// the read cache must follow: a stale cached slab (or a cached slab of a deleted register) would become visible again
+				cacheUpd := func(y ssa.Instruction) bool {
+					fw2, ok := fieldWriteOf(y)
+					return ok && fw2.Ref.is(storageT, "cache") && fw2.Kind == "mapupdate" && sameValue(fw2.Key, fw.Key)
+				}
+				found := true
+				reachBackFrom(fn, in, func(y ssa.Instruction) bool {
+					if cacheUpd(y) {
+						return true
+					}
+					if c, _, ok := p.baseWrite(y); ok && len(c.Common().Args) > 0 && sameValue(c.Common().Args[0], fw.Key) {
+						found = false
+						return true
+					}
+					return false
+				})
+				if !found {
+					// or after the delete, before the iteration ends
+					found = true
+					h := loopHeadOf(in.Block())
+					reachFrom(fn, in, nil, func(y ssa.Instruction) bool {
+						if cacheUpd(y) {
+							return true
+						}
+						if _, isRet := y.(*ssa.Return); isRet {
+							found = false
+							return true
+						}
+						if h != nil && y == h.Instrs[0] {
+							found = false
+							return true
+						}
+						return false
+					})
+				}
+				r.Decide(found, R, "cache-follows:"+p.Name(fn), p.InstrPos(in), "the read cache entry of the same id is updated whenever the write-set entry is retired",
+					"a write-set entry is retired without updating the read cache entry of the same id: an older cached slab (or the cached slab of a deleted register) would become visible again")
 			case fw.Ref.Field == "cache" && fw.Kind == "mapupdate":
 				nCache++
 				cons := fmt.Sprintf("cache-move:%s", p.Name(fn))
